@@ -18,6 +18,8 @@ type Ref struct {
 	Class       string `json:"class"`
 	Digest      string `json:"digest,omitempty"`
 	Steps       int    `json:"steps"`
+	W           int    `json:"w,omitempty"`
+	H           int    `json:"h,omitempty"`
 	Unavailable string `json:"unavailable,omitempty"` // the call does not even finish alone
 	LeaksAlone  int    `json:"leaks_alone,omitempty"`
 }
@@ -62,7 +64,7 @@ type Scenario struct {
 
 // Violation is one property violation found in a scenario.
 type Violation struct {
-	Class  string `json:"class"` // result-differs | input-modified | aliasing | panic | goroutine-panic | deadlock | livelock | goroutine-left-running | data-race | model-divergence
+	Class  string `json:"class"` // result-differs | result-changed-later | input-modified | aliasing | panic | goroutine-panic | deadlock | livelock | goroutine-left-running | data-race | model-divergence
 	Fn     string `json:"fn,omitempty"`
 	What   string `json:"what,omitempty"`
 	Detail string `json:"detail"`
@@ -160,6 +162,7 @@ func (e *Executor) computeRefs(rt *RefTable, calls []*Call) error {
 				cr := out.Res.Results[0][0][0]
 				ref.Class = cr.Class
 				ref.Digest = cr.Digest
+				ref.W, ref.H = cr.W, cr.H
 				ref.Steps = out.Res.Steps
 				for _, l := range out.Res.Leaks {
 					if l.Module {
@@ -204,6 +207,21 @@ func head(s string, n int) string {
 	return s
 }
 
+// panickingStack cuts a crash dump down to the goroutine that panicked (the
+// first goroutine block): with GOTRACEBACK=all every other goroutine follows,
+// and those must not be used to attribute the crash.
+func panickingStack(crash string) string {
+	i := strings.Index(crash, "\ngoroutine ")
+	if i < 0 {
+		return crash
+	}
+	rest := crash[i+1:]
+	if j := strings.Index(rest, "\n\n"); j >= 0 {
+		return crash[:i+1] + rest[:j]
+	}
+	return crash
+}
+
 func moduleInText(mod, text string) bool {
 	for _, ln := range strings.Split(text, "\n") {
 		i := strings.Index(ln, mod)
@@ -227,7 +245,7 @@ func moduleInText(mod, text string) bool {
 func judge(b *Build, prop string, segIdx int, seg *Segment, out *RunOut, refs *RefTable) ([]Violation, error) {
 	var vs []Violation
 	if out.Res == nil {
-		if out.Crash != "" && moduleInText(b.Module, out.Crash) {
+		if out.Crash != "" && moduleInText(b.Module, panickingStack(out.Crash)) && !strings.Contains(panickingStack(out.Crash), "/zz_simnode.") {
 			vs = append(vs, Violation{Class: "goroutine-panic", Detail: "the process died: " + firstLine(out.Crash), Seg: segIdx, Extra: head(out.Crash, 6000)})
 			return vs, nil
 		}
@@ -243,6 +261,10 @@ func judge(b *Build, prop string, segIdx int, seg *Segment, out *RunOut, refs *R
 		vs = append(vs, Violation{Class: "deadlock", Detail: fmt.Sprintf("%s after %d steps: every goroutine is blocked and at least one call has not returned", r.Verdict, r.Steps), Seg: segIdx, Extra: head(r.Dump, 12000)})
 	case "stepcap":
 		vs = append(vs, Violation{Class: "livelock", Detail: fmt.Sprintf("step cap reached after %d steps without all calls returning", r.Steps), Seg: segIdx})
+	}
+	if r.Verdict != "done" {
+		// the run was cut short: per-call results and race accounting of a torn run are not judged
+		return vs, nil
 	}
 	if r.Verdict == "done" {
 		for _, l := range r.Leaks {
@@ -309,6 +331,13 @@ func judge(b *Build, prop string, segIdx int, seg *Segment, out *RunOut, refs *R
 					v := at
 					v.Class = "input-modified"
 					v.Detail = "the call changed the caller's argument buffer"
+					vs = append(vs, v)
+				}
+				if cr.LaterWhat != "" {
+					v := at
+					v.Class = "result-changed-later"
+					v.What = cr.LaterWhat
+					v.Detail = "a barcode that had already been returned changed after later calls were made: " + cr.LaterWhat
 					vs = append(vs, v)
 				}
 				if cr.MutWhat != "" {
